@@ -1190,3 +1190,146 @@ pub fn features(p: &Prog) -> Vec<String> {
     }
     tags
 }
+
+// ================================================================== near-miss mutants (C03)
+
+/// replacement menu for an atom
+pub const MUT_MENU: [&str; 9] = ["(1.0, 2.0)", "(|q| q)", "\"s\"", "{ 1.0 }", "[1.0, 2.0]", "self", "now", "(1.0, (2.0, 3.0))", "{a = 1.0}"];
+/// maximum number of mutants generated per program (indices beyond the actual count are invalid)
+pub const MUT_MAX: u64 = 16 * MUT_MENU.len() as u64 + 8;
+
+fn map_atoms(e: &E, counter: &mut u64, target: u64, repl: &E) -> E {
+    let mut go = |x: &E| map_atoms(x, counter, target, repl);
+    match e {
+        E::Num(_) | E::Var(_) | E::Now => {
+            let me = *counter;
+            *counter += 1;
+            if me == target { repl.clone() } else { e.clone() }
+        }
+        E::Neg(a) => E::Neg(Box::new(go(a))),
+        E::Bin(op, a, b) => {
+            let a2 = go(a);
+            let b2 = go(b);
+            E::Bin(op, Box::new(a2), Box::new(b2))
+        }
+        E::Math(f, v) => E::Math(f, v.iter().map(|x| go(x)).collect()),
+        E::Call(f, v, s) => E::Call(f.clone(), v.iter().map(|x| go(x)).collect(), *s),
+        E::If(c, t, el) => {
+            let c2 = go(c);
+            let t2 = go(t);
+            let e2 = go(el);
+            E::If(Box::new(c2), Box::new(t2), Box::new(e2))
+        }
+        E::Block(ss, r) => {
+            let ss2 = ss
+                .iter()
+                .map(|s| match s {
+                    S::Let(p, e) => S::Let(p.clone(), go(e)),
+                    S::Assign(n, e) => S::Assign(n.clone(), go(e)),
+                    S::Expr(e) => S::Expr(go(e)),
+                })
+                .collect();
+            let r2 = r.as_ref().map(|r| Box::new(go(r)));
+            E::Block(ss2, r2)
+        }
+        E::Tuple(v) => E::Tuple(v.iter().map(|x| go(x)).collect()),
+        E::Proj(a, i) => E::Proj(Box::new(go(a)), *i),
+        E::Mem(a, s) => E::Mem(Box::new(go(a)), *s),
+        E::Delay(n, a, t, s) => {
+            let a2 = go(a);
+            let t2 = go(t);
+            E::Delay(*n, Box::new(a2), Box::new(t2), *s)
+        }
+        E::Pipe(a, f, s) => {
+            let a2 = go(a);
+            let f2 = go(f);
+            E::Pipe(Box::new(a2), Box::new(f2), *s)
+        }
+        E::Lambda(ps, b) => E::Lambda(ps.clone(), Box::new(go(b))),
+        other => other.clone(),
+    }
+}
+fn count_atoms(e: &E) -> u64 {
+    let mut c = 0;
+    let _ = map_atoms(e, &mut c, u64::MAX, &E::Now);
+    c
+}
+/// m = 0: the program itself. Otherwise a deviation-1 type-changing mutant of dsp's body, or one of the
+/// whole-program mutants (stateful call at global scope, tuple-valued self in a scalar function, ...).
+pub fn mutate(p: &Prog, m: u64) -> Option<(Prog, String)> {
+    if m == 0 {
+        return Some((p.clone(), "unmutated".into()));
+    }
+    let m = m - 1;
+    let dsp_i = p.items.iter().position(|it| matches!(it, Item::Fn(f) if f.name == "dsp"))?;
+    let Item::Fn(dsp) = &p.items[dsp_i] else { return None };
+    let natoms = count_atoms(&dsp.body).min(16);
+    let menu = MUT_MENU.len() as u64;
+    if m < natoms * menu {
+        let (pos, which) = (m / menu, (m % menu) as usize);
+        let mut c = 0;
+        let body = map_atoms(&dsp.body, &mut c, pos, &E::Raw(MUT_MENU[which].to_string()));
+        let mut q = p.clone();
+        if let Item::Fn(f) = &mut q.items[dsp_i] {
+            f.body = body;
+        }
+        return Some((q, format!("atom {pos} -> {}", MUT_MENU[which])));
+    }
+    let w = m - natoms * menu;
+    let has_cnt = p.items.iter().any(|it| matches!(it, Item::Fn(f) if f.name == "cnt"));
+    let mut q = p.clone();
+    let what = match w {
+        0 if has_cnt => {
+            // stateful call at global scope, used by dsp
+            q.items.insert(dsp_i, Item::Let(Pat::Var("gq".into()), call("cnt", vec![num(1.0)], 9000)));
+            "stateful call at global scope"
+        }
+        1 => {
+            // dsp returns a function
+            if let Item::Fn(f) = &mut q.items[dsp_i] {
+                f.body = block(vec![S::Expr(f.body.clone())], E::Raw("(|q| q)".into()));
+            }
+            "dsp returns a lambda"
+        }
+        2 => {
+            if let Item::Fn(f) = &mut q.items[dsp_i] {
+                f.body = block(vec![S::Expr(f.body.clone())], E::Raw("{ }".into()));
+            }
+            "dsp returns unit"
+        }
+        3 => {
+            // delay with non-literal size
+            if let Item::Fn(f) = &mut q.items[dsp_i] {
+                f.body = block(vec![S::Expr(f.body.clone())], E::Raw("delay(x + 3.0, x, 1.0)".into()));
+            }
+            "delay with non-literal size"
+        }
+        4 => {
+            if let Item::Fn(f) = &mut q.items[dsp_i] {
+                f.body = block(vec![S::Expr(f.body.clone())], E::Raw("delay(0.0, x, 1.0)".into()));
+            }
+            "delay of size zero"
+        }
+        5 => {
+            if let Item::Fn(f) = &mut q.items[dsp_i] {
+                f.body = block(vec![S::Expr(f.body.clone())], E::Raw("delay(3.0, x, 100.0)".into()));
+            }
+            "delay time beyond its size"
+        }
+        6 => {
+            if let Item::Fn(f) = &mut q.items[dsp_i] {
+                f.body = block(vec![S::Expr(f.body.clone())], E::Raw("delay(3.0, x, 0.0 - 5.0)".into()));
+            }
+            "negative delay time"
+        }
+        7 => {
+            // tuple-valued self inside dsp
+            if let Item::Fn(f) = &mut q.items[dsp_i] {
+                f.body = block(vec![S::Expr(f.body.clone()), S::Let(Pat::Tuple(vec![Pat::Var("sa".into()), Pat::Var("sb".into())]), E::SelfV)], E::Raw("(sa + 1.0, sb + sa)".into()));
+            }
+            "dsp with tuple-valued self"
+        }
+        _ => return None,
+    };
+    Some((q, what.to_string()))
+}
